@@ -248,6 +248,11 @@ class SmartServerRequest:
             the backing transport).
         """
         client_path = client_path.decode("utf-8")
+        lowered = client_path.lower()
+        if "%2f" in lowered or "%5c" in lowered:
+            # An encoded path separator would be decoded into a real one by
+            # the transports underneath, after the checks below have run.
+            raise transport_errors.PathNotChild(client_path, self._root_client_path)
         if self._root_client_path is None:
             # no translation necessary!
             return client_path
